@@ -6,10 +6,13 @@
 //              position of an equivalent element)
 // mode=exh : case index = block of the enumeration of all tuples with m<=3 sequences of
 //            length 1..4 over values {0,1,2} (exhaustive), mode=exh4: m==4, length 1..3
+// mode=huge: a run of more than 2^31 / 2^32 elements (see mode_huge)
 // mode=rand: random tuples (m<=10, sometimes 17..64, lengths dense 1..9, around powers of two, very unequal)
 #include <verif.hpp>
 
 #include <functional>
+
+#include <sys/mman.h>
 
 #include <tlx/algorithm/multisequence_partition.hpp>
 #include <tlx/algorithm/multisequence_selection.hpp>
@@ -237,11 +240,80 @@ static void mode_rand(Rng& rng, uint64_t) {
     }
 }
 
+// mode=huge: one run of 2^31+1000 (index 1: 2^32+5) zero bytes in untouched anonymous pages (it costs no
+// memory and is sorted) next to a short run: lengths and ranks beyond 32 bits. The expected split is known
+// in closed form: by (value, sequence, position) all zeros of run 0 come first, then run 1 in order.
+static void mode_huge(Rng& rng, uint64_t index) {
+    const size_t B = index % 2 == 0 ? ((size_t)1 << 31) + 1000 : ((size_t)1 << 32) + 5;
+    void* mem = mmap(nullptr, B, PROT_READ, MAP_PRIVATE | MAP_ANONYMOUS | MAP_NORESERVE, -1, 0);
+    if (mem == MAP_FAILED) { verif::count("huge_mmap_failed"); return; }
+    // (non-const pointers: multisequence_selection does not compile for runs of const elements; nothing is written)
+    unsigned char* big = static_cast<unsigned char*>(mem);
+    std::vector<unsigned char> small = { 0, 0, 1, 2, 2, 5, 9 };
+    typedef std::pair<unsigned char*, unsigned char*> Seq;
+    for (int order = 0; order < 2; ++order) {   // the big run as sequence 0 and as sequence 1
+        std::vector<Seq> seqs(2);
+        seqs[order] = { big, big + B };
+        seqs[1 - order] = { small.data(), small.data() + small.size() };
+        const size_t N = B + small.size();
+        // merged order: zeros of sequence 0, zeros of sequence 1, then the non-zero rest of the small run
+        const size_t z_small = 2;
+        std::vector<size_t> ranks = { 0, 1, 2, 3, B - 1, B, B + 1, B + 2, B + 3, N - 1, N, B / 2, ((size_t)1 << 31) - 1, (size_t)1 << 31, ((size_t)1 << 31) + 1 };
+        for (int k = 0; k < 6; ++k) ranks.push_back(rng.below(N + 1));
+        for (size_t rank : ranks) {
+            if (rank > N) continue;
+            size_t want_big, want_small;
+            if (order == 0) { want_big = std::min(rank, B); want_small = rank - want_big; }
+            else {
+                // small run is sequence 0: its zeros come first, then the big run's zeros, then the small rest
+                size_t a = std::min(rank, z_small); size_t b = std::min(rank - a, B); want_big = b; want_small = a + (rank - a - b);
+            }
+            std::vector<unsigned char*> offs(2, nullptr);
+            verif::context() = "multisequence_partition";
+            if (rank % 2) tlx::multisequence_partition(seqs.begin(), seqs.end(), (long)rank, offs.begin(), std::less<unsigned char>());
+            else tlx::multisequence_partition(seqs.begin(), seqs.end(), rank, offs.begin(), std::less<unsigned char>());
+            verif::context() = "";
+            ++g_pairs;
+            size_t got_big = (size_t)(offs[order] - seqs[order].first), got_small = (size_t)(offs[1 - order] - seqs[1 - order].first);
+            if (got_big != want_big || got_small != want_small) {
+                verif::fail("C08:multisequence_partition:huge", "run of " + std::to_string(B) + " zero bytes as sequence " + std::to_string(order) +
+                            " and {0,0,1,2,2,5,9}: rank " + std::to_string(rank) + " split (big " + std::to_string(got_big) + ", small " +
+                            std::to_string(got_small) + "), expected (big " + std::to_string(want_big) + ", small " + std::to_string(want_small) + ")");
+                munmap(mem, B);
+                return;
+            }
+            if (rank < N) {
+                // element at that rank and its offset among the equivalent ones
+                unsigned char want_v; size_t want_off;
+                size_t zeros = B + z_small;
+                if (rank < zeros) { want_v = 0; want_off = rank; }
+                else { size_t j = z_small + (rank - zeros); want_v = small[j]; size_t f = j; while (f > 0 && small[f - 1] == want_v) --f; want_off = j - f; }
+                long off = -7;
+                verif::context() = "multisequence_selection";
+                unsigned char v = tlx::multisequence_selection<unsigned char>(seqs.begin(), seqs.end(), (long)rank, off, std::less<unsigned char>());
+                verif::context() = "";
+                if (v != want_v || (size_t)off != want_off) {
+                    verif::fail("C08:multisequence_selection:huge", "run of " + std::to_string(B) + " zero bytes as sequence " + std::to_string(order) +
+                                " and {0,0,1,2,2,5,9}: rank " + std::to_string(rank) + " gives value " + std::to_string(v) + " offset " + std::to_string(off) +
+                                ", expected value " + std::to_string(want_v) + " offset " + std::to_string(want_off));
+                    munmap(mem, B);
+                    return;
+                }
+            }
+            verif::count("huge_ranks_checked");
+        }
+    }
+    munmap(mem, B);
+    verif::cover(std::string("huge:run-length=") + (index % 2 == 0 ? "2^31+1000" : "2^32+5"));
+    verif::sample("huge: " + std::to_string(B) + " zero bytes + a run of 7, both sequence orders, ranks around 0, 2^31, B and N");
+}
+
 static void run_case(Rng& rng, uint64_t index) {
     std::string mode = verif::param("mode", "rand");
     uint64_t p0 = g_pairs, t0 = g_tied, a0 = g_aliased;
     if (mode == "exh") mode_exh(index, 0, 4, 500);
     else if (mode == "exh4") mode_exh(index, 4, 3, 2000);
+    else if (mode == "huge") mode_huge(rng, index);
     else mode_rand(rng, index);
     verif::count("tuple_rank_pairs", g_pairs - p0);
     verif::count("pairs_with_tie_across_split", g_tied - t0);
